@@ -407,12 +407,12 @@ PROPERTIES['C15'] = {
 PROPERTIES['C08'] = {
     'level': 'other',
     'configs': lambda tier: [B, D, extract.flip(B, 'nostats')] if tier == 'quick' else extract.all_configs(),
-    'rules': [R(exc.exc1), R(exc.exc2), R(exc.exc4), R(exc.exc5), R(mutex.mx1)],
+    'rules': [R(exc.exc1), R(exc.exc2), R(exc.exc4), R(exc.exc5), R(exc.exc6), R(exc.heap1), R(mutex.mx1)],
     'technique': 'static analysis: path-sensitive commit-point effect flow with bottom-up callee summaries (return classes, out-parameter nullness) and whole-program allocation capability; dominance rules in the factories; scope-guard rule for the mutex',
     'explanation': 'Strong exception guarantee as a commit-point property, decided on every path instead of at the ~20 hand-counted injection points of the test suite: '
                    'EXC-1 a path-sensitive dataflow (worlds carrying "an effect has been committed" plus nullness/optional facts, so the descent and retry loops are resolved through the return classes of their helpers; callee summaries bottom-up; allocation capability from the whole-program call graph including libstdc++ bodies) '
                    'over insert/remove of db, mutex_db and olc_db for both key kinds, QSBR resume, thread start and deferred-deallocation requests shows that no allocation-capable call and no throw follows the first committed effect (store into the tree, statistics update, obsoletion, QSBR state change); writes to fresh, unpublished nodes and lock acquisition are not effects; '
-                   'EXC-2 accounting increments happen only in the two factories after the allocation and are rolled back by the deleter of the returned unique_ptr; EXC-3 length limits are thrown before anything is allocated; EXC-5 the exception reaches the caller: no function on a call path from an entry point to a fault point is declared noexcept (it would turn the failure into std::terminate); EXC-4 no allocation-capable call or throw lies between release() of an owning unique_ptr and the hand-over to the next owner (tree slot, another owner, the QSBR instance of the thread), lambda captures of raw pointers included - the thread factory is instantiated in the analysis unit for this; MX-1 the mutex is held through a named scope guard, so an exception releases it (OLC write ownership exists only as write_guard objects: LW-1 of C07).',
+                   'EXC-2 accounting increments happen only in the two factories after the allocation and are rolled back by the deleter of the returned unique_ptr; EXC-3 length limits are thrown before anything is allocated; EXC-5 the exception reaches the caller: no function on a call path from an entry point to a fault point is declared noexcept (it would turn the failure into std::terminate); EXC-4 no allocation-capable call or throw lies between release() of an owning unique_ptr and the hand-over to the next owner (tree slot, another owner, the QSBR instance of the thread), lambda captures of raw pointers included - the thread factory is instantiated in the analysis unit for this; EXC-6 in on_next_epoch_deallocate no call that can fail (allocation-capable and not noexcept) follows a change of the per-thread QSBR state (epoch advanced, lists rotated / executed, pending size updated): the append that files the request is the last fallible step; HEAP-1 allocate_aligned, the one allocator under every node: in the case "posix_memalign failed" (output pointer indeterminate per POSIX) no path reaches the return - case walk with the pointer tracked as valid / null / indeterminate - so a failed allocation always surfaces as std::bad_alloc; MX-1 the mutex is held through a named scope guard, so an exception releases it (OLC write ownership exists only as write_guard objects: LW-1 of C07).',
     'decides': 'commit-point discipline of every operation; compensated accounting; limits-before-allocation; no fault point while ownership is raw; the mutex does not outlive an exception',
     'does_not_decide': '"repeating the operation then succeeds" as behaviour (follows from unchanged state + C01); allocation failures inside deferred deallocation with more than one registered thread (outside the property\'s scope, listed as pruned in the evidence)',
     'assumptions': ['tree operations run with a single registered QSBR thread (C08 as stated): qsbr_per_thread::on_next_epoch_deallocate is treated as non-allocating when reached from a tree operation; it is analysed unpruned as an entry point of its own'],
